@@ -404,7 +404,7 @@ class Engine:
             self.assign(s.targets[0], s.value, st); self.ghost_lemmas(s.targets[0], st); return F()
         if isinstance(s, ast.AnnAssign) and s.value is not None:
             self.assign(s.target, s.value, st); self.ghost_lemmas(s.target, st); return F()
-        if isinstance(s, ast.AugAssign): self.augassign(s, st); return F()
+        if isinstance(s, ast.AugAssign): self.augassign(s, st); self.ghost_lemmas(s.target, st); return F()
         if isinstance(s, ast.Return):
             v = self.expr(s.value, st, hint=self.spec.returns if not self.spec.generator else None) if s.value is not None else PNone()
             self.escape(st, v, 'return value') if False else None
